@@ -4,7 +4,7 @@
 //!   reference hash = sha256(canonical_json(redact(event) - {signatures, unsigned})), unpadded base64, standard
 //!                    alphabet for event-id formats v1/v2 (room versions 1-3), URL-safe afterwards
 //!   both fail for a JSON text longer than 65535 bytes.
-//! Space: every subset of 9 top-level keys (type, content, hashes, signatures, unsigned, sender, depth,
+//! Space: every subset of 13 top-level keys (type, content, hashes, signatures, unsigned, sender, depth, age_ts, outlier, destinations, prev_state,
 //! origin, x.extra) x 3 event types x every RoomVersionRules constant V1..V11.
 use base64::Engine;
 use ruma_common::{canonical_json::redact, room_version_rules::{EventIdFormatVersion, RoomVersionRules}, CanonicalJsonObject, CanonicalJsonValue};
@@ -33,7 +33,7 @@ pub fn run(_tier: &str) -> Report {
         ("V5", RoomVersionRules::V5), ("V6", RoomVersionRules::V6), ("V7", RoomVersionRules::V7), ("V8", RoomVersionRules::V8),
         ("V9", RoomVersionRules::V9), ("V10", RoomVersionRules::V10), ("V11", RoomVersionRules::V11),
     ];
-    let keys = ["content", "hashes", "signatures", "unsigned", "sender", "depth", "origin", "x.extra"];
+    let keys = ["content", "hashes", "signatures", "unsigned", "sender", "depth", "origin", "x.extra", "age_ts", "outlier", "destinations", "prev_state"];
     let (mut n, mut f_content, mut f_ref, mut f_size, mut f_panic) = (0u64, vec![], vec![], vec![], vec![]);
     for ty in ["m.room.message", "m.room.member", "m.room.create"] {
         for subset in 0u32..(1 << keys.len()) {
@@ -49,6 +49,9 @@ pub fn run(_tier: &str) -> Report {
                     "signatures" => json!({"s": {"ed25519:1": "c2ln"}}),
                     "unsigned" => json!({"age": 5}),
                     "depth" => json!(7),
+                    "age_ts" => json!(1000),
+                    "outlier" => json!(true),
+                    "destinations" => json!(["a.org", "b.org"]),
                     _ => json!(format!("v-{k}")),
                 };
                 ev.insert((*k).into(), v.try_into().unwrap());
@@ -111,7 +114,7 @@ pub fn run(_tier: &str) -> Report {
         }
     }
     Report {
-        bound: "every subset of 8 optional top-level keys x 3 event types x RoomVersionRules V1..V11; size limit at 65535/65536 bytes".to_owned(),
+        bound: "every subset of 12 optional top-level keys (incl. the transient keys age_ts / outlier / destinations other implementations strip) x 3 event types x RoomVersionRules V1..V11; size limit at 65535/65536 bytes".to_owned(),
         cases: n,
         obligations: vec![
             ("content_hash_is_sha256_of_event_without_hashes_signatures_unsigned", (3 << keys.len()) as u64, f_content),
